@@ -31,7 +31,7 @@ ASSUME = ["gm/ref/blib.py is a faithful reading of the doc comments in src/__pre
           "100000 interpreter ticks are far more than any terminating call on inputs of <= 6 characters needs"]
 BATCH = 24
 FLOOR = {"quick": 250, "thorough": 500}
-BUDGET = {"quick": 40, "thorough": 700}
+BUDGET = {"quick": 32, "thorough": 700}
 
 ALPHA = ["a", "b", " ", ",", "\u00e9", "\U0001F600"]
 MIN, MAX = bval.MIN, bval.MAX
@@ -107,6 +107,11 @@ FUNCS = {
                        lambda r, a: blib.list_index_of([["str", x] for x in r], ["str", a[0]])),
     "slist.contains": (lambda r, a: "%s.contains(%s)" % (slsrc(r), ssrc(a[0])),
                        lambda r, a: blib.list_contains([["str", x] for x in r], ["str", a[0]])),
+    # elements that are compound values containing empty lists built in different ways: [abstract value, source]
+    "vlist.contains": (lambda r, a: "[%s].contains(%s)" % (", ".join(x[1] for x in r), a[0][1]),
+                       lambda r, a: blib.list_contains([x[0] for x in r], a[0][0])),
+    "vlist.index_of": (lambda r, a: "[%s].index_of(%s)" % (", ".join(x[1] for x in r), a[0][1]),
+                       lambda r, a: blib.list_index_of([x[0] for x in r], a[0][0])),
 }
 TWO_STRING = ["starts_with", "ends_with", "contains", "index_of", "split", "split_once", "strip_prefix", "strip_suffix"]
 UNARY_STR = ["trim_left", "trim_right", "trim", "chars", "len"]
@@ -114,6 +119,46 @@ UNARY_LIST = ["list.len", "list.first", "list.last", "list.enumerate", "list.is_
 
 
 ROW = 60
+
+
+# the empty list, built in ways that give it different inferred element types
+EMPTIES = ["[]", "[7].slice(1, 1)", "[].append(1).slice(0, 0)", "range(0, 0)", "[1].filter(fun(_: Int) { False })",
+           "[\"a\"].slice(1, 1)", "\"\".split(\",\")", "[1.5].slice(0, 0)", "[[1]].slice(1, 1)"]
+EMPTY = ["list", []]
+WRAPS = [
+    ("tuple2", lambda v: ["tuple", [["int", 1], v]], "(1, %s)"),
+    ("tuple1", lambda v: ["tuple", [v]], "(%s,)"),
+    ("tuple-nested", lambda v: ["tuple", [["tuple", [v, ["str", "a"]]], ["int", 2]]], "((%s, \"a\"), 2)"),
+    ("list", lambda v: ["list", [v]], "[%s]"),
+    ("list2", lambda v: ["list", [v, v]], "[%s, %s]"),
+    ("some", lambda v: ["enum", "Some", v], "Some(%s)"),
+    ("ok", lambda v: ["enum", "Ok", v], "Ok(%s)"),
+    ("some-tuple", lambda v: ["enum", "Some", ["tuple", [v, ["int", 0]]]], "Some((%s, 0))"),
+    ("dict", lambda v: ["dict", [["k", v]]], "Dict[\"k\" => %s]"),
+    ("bare", lambda v: v, "%s"),
+]
+
+
+def empties_rows(n=ROW):
+    """contains / index_of where the needle equals an element but its empty lists were built differently,
+    plus near misses (a non-empty list in the same place)."""
+    cur = {"vlist.contains": [], "vlist.index_of": []}
+    for wname, wabs, wsrc in WRAPS:
+        k = wsrc.count("%s")
+        for e1 in EMPTIES:
+            for e2 in EMPTIES:
+                el = [wabs(EMPTY), wsrc % ((e1,) * k)]
+                miss = [wabs(["list", [["int", 7]]]), wsrc % (("[7]",) * k)]
+                needle = [wabs(EMPTY), wsrc % ((e2,) * k)]
+                for f in cur:
+                    cur[f].append([[miss, el], [needle]])
+                    cur[f].append([[el, miss], [miss]])
+                    if len(cur[f]) >= n:
+                        yield {"f": f, "calls": cur[f]}
+                        cur[f] = []
+    for f in cur:
+        if cur[f]:
+            yield {"f": f, "calls": cur[f]}
 
 
 def rows(f, recvs, argtuples, n=ROW):
@@ -139,6 +184,7 @@ def gen_cases(tier, seed):
     def G(f, recvs, argtuples, n=ROW):
         gens.append(rows(f, list(recvs), list(argtuples), n))
 
+    gens.append(empties_rows(120))
     for f in TWO_STRING:
         G(f, S, [(n,) for n in needles])
     G("replace", strings(slen - 1), [(n, a) for n in needles for a in ("", "x", "\u00e9,")])
@@ -236,6 +282,8 @@ def _scls(s):
 
 
 def arg_class(f, r, a):
+    if f.startswith("vlist."):
+        return "%s@%d" % (bval.shape(a[0][0], 2), [bval.equal(x[0], a[0][0]) for x in r].index(True) if any(bval.equal(x[0], a[0][0]) for x in r) else -1)
     if isinstance(r, str):
         rc = _scls(r)
         if a and isinstance(a[0], str):
